@@ -57,7 +57,9 @@ Record wrapper := {
 Inductive cmpop := CLt | CLe | CGt | CGe | CEq | CNe.
 (* if (buf) { if ( *size CMP len + hc_cmp_plus ) throw msg; copy; } else { *size = len + hc_query_plus; } *)
 Record helper_code := mkHelperCode {
-  hc_cmp : cmpop; hc_cmp_plus : nat; hc_query_plus : nat; hc_copy_after_test : bool; hc_msg : string }.
+  hc_cmp : cmpop; hc_cmp_plus : nat; hc_query_plus : nat; hc_copy_after_test : bool;
+  hc_guard_plain : bool;   (* the outer condition is exactly `if (buf)` and the translator recognised the body *)
+  hc_msg : string }.
 Record handler_facts := mkHandlerFacts {
   hf_handle_returns : Z; hf_stores_what : bool; hf_reset_msg : string; hf_init_msg : string;
   hf_thread_local : bool }.
@@ -439,5 +441,5 @@ Definition lookup_helper (tbl : list (helper * helper_code)) (h : helper) : help
                        | HCopyVector, HCopyVector | HCopyString, HCopyString | HMoveVector, HMoveVector => true
                        | _, _ => false end) tbl with
   | Some x => snd x
-  | None => mkHelperCode CNe 0 0 false ""
+  | None => mkHelperCode CNe 0 0 false false ""
   end.
